@@ -345,6 +345,15 @@ func checkMain(args []string) int {
 					} else {
 						vo.detail = "3000 native runs with the real random source never reached it either"
 					}
+				case strings.HasPrefix(v.Label, "deadlock"):
+					vo.confirmed = cr.Hang
+					if cr.Hang {
+						vo.detail = "native run did not return within the hang timeout"
+					} else {
+						vo.detail = "native run returned although the engine found every goroutine blocked"
+					}
+				case cr.Hang:
+					vo.detail = "native run hung"
 				case v.Panic != "":
 					if cr.Panic != "" || strings.HasPrefix(v.Label, "deadlock") {
 						vo.confirmed = cr.Panic != ""
@@ -379,6 +388,8 @@ func checkMain(args []string) int {
 				bad := ""
 				if cr.Desync != "" {
 					bad = "desync: " + cr.Desync
+				} else if cr.Hang {
+					bad = "native run hung on a path the engine completed"
 				} else if cr.Panic != "" {
 					bad = "native panic on a path the engine completed: " + cr.Panic
 				} else if len(cr.Failures) > 0 && len(r.res.Violations) == 0 {
@@ -549,6 +560,7 @@ type nativeResult struct {
 	Observes []symx.Observation `json:"observes"`
 	Panic    string             `json:"panic"`
 	Desync   string             `json:"desync"`
+	Hang     bool               `json:"hang"`
 }
 
 // writeReplayDir materialises harness + gosym + test + replay.json + overlay.json in dir.
